@@ -16,8 +16,15 @@ Oracle = the property text ("equals what a newly constructed object given the sa
 inputs reports"); no measure is re-implemented and the cache is never inspected.
 
 check names:  "<Class>.<last mutator>/fresh-twin", "<Class>.<last mutator>/cache-cleared",
-              "<Class>.__init__/fresh-twin" (empty history), and the quarantined one-step probes
-              listed in the registry under their own names.
+              "<Class>.__init__/fresh-twin" (empty history), "<Class>.<mutator>/mutator-raises",
+              and the quarantined one-step probes listed in the registry under their own names
+              (they are also spelled out at the end of the report's `scope`).
+
+Details: the population sweeps (before / between mutators) call all cached queries and all
+queries cheaper than 1.5 ms in a fixed order; the final sweep calls every query in an order
+that depends on the history, so that state kept outside the cache cannot be refreshed by a
+"lucky" predecessor; fresh-twin results are memoised per model state.  VERIF_SPECS=<names>
+restricts the classes (development aid).
 """
 import itertools
 import json
@@ -296,6 +303,12 @@ def main():
             "counts query comparisons; a case is non-trivial when the last mutator changed at least one "
             "query result of the object (so a stale value would be visible); RNG is re-seeded before "
             "every query call, queries that differ between two fresh objects are listed in `skipped`")
+    probes = []
+    for c in REG.ALL_SPECS:
+        for m in c(args.seed).quarantine:
+            probes.append(f"{m.check} [{c.name}: {m.why}]")
+    scope += ("  One-step probes kept out of the alphabets because they break coherence on their own "
+              "(each under its own check name): " + "; ".join(probes))
     rep = Report("C01", args, scope, rule)
     workdir = tempfile.mkdtemp(prefix="c01_")
     os.chdir(workdir)
